@@ -47,6 +47,8 @@ def problem_tags(pc):
         tags.append("negative-bounds")
     if any(lo == hi for lo, hi in pc["shr"]):
         tags.append("singleton-domain")
+    if any(abs(lo) > 100 or abs(hi) > 100 for lo, hi in pc["shr"]):
+        tags.append("far-values")
     tags.append("nprops:%d" % len(pc["props"]))
     return tags
 
